@@ -493,7 +493,7 @@ func c19formerMembers(e common.Env, p *common.Part, kind, label string, ids []ui
 // ---- orchestrated EdDSA: key generation and signing through real Loud / Silent schemes (also C01's orchestrated-signing clause) ----
 
 func unitC19orch(e common.Env, p *common.Part) {
-	p.Rule = "EdDSA key generation and orchestrated signing through real LoudScheme / SilentScheme objects on the simulated network (random delivery policies, staggered starts), n = 3,4, exactly Threshold+1 callers PRNG-chosen from the universe; every participant's signature must verify with crypto/ed25519 for the requested digest (incl. digests with leading zero bytes); distinct key = (n, t, mode, signers, digest kind)"
+	p.Rule = "EdDSA key generation and orchestrated signing through real LoudScheme / SilentScheme objects on the simulated network (random delivery policies, staggered starts), n = 3,4, exactly Threshold+1 callers PRNG-chosen from the universe; every node is asked for the threshold public key through its scheme object (all reports identical) and every participant's signature must verify under it with crypto/ed25519 for the requested digest (incl. digests with leading zero bytes); in loud mode a SECOND key generation runs on the same scheme objects, after which the reported key is the new one and signatures verify under it; distinct key = (n, t, mode, generation, signers, digest kind)"
 	cases := []struct {
 		n, t   int
 		silent bool
@@ -529,73 +529,101 @@ func unitC19orch(e common.Env, p *common.Part) {
 			c.SetPick(tss.DkgTopicName, ids)
 		}
 		ctx, cancel := context.WithTimeout(context.Background(), 90*time.Second)
-		shares := map[uint16][]byte{}
-		errs := map[uint16]error{}
+		// loud mode: TWO key generations on the same scheme objects, each followed by signing (a long-lived node whose key is
+		// rotated); what a node reports and signs with after the second one belongs to the second one
+		gens := 1
+		if !cs.silent {
+			gens = 2
+		}
+		var prevTPK []byte
 		var mu sync.Mutex
 		var wg sync.WaitGroup
-		for _, u := range ids {
-			u := u
-			wg.Add(1)
-			go func() {
-				defer wg.Done()
-				time.Sleep(time.Duration(rng.Intn(2000)) * time.Microsecond)
-				out, err := c.Schemes[u].KeyGen(ctx, cs.n, cs.t)
-				mu.Lock()
-				shares[u], errs[u] = out, err
-				mu.Unlock()
-			}()
-		}
-		wg.Wait()
-		failed := false
-		for _, u := range ids {
-			if errs[u] != nil {
-				p.Violate("orchestrated-keygen-failed/"+mode, fmt.Sprintf("%s: node %d: %v", label, u, errs[u]), nil)
-				failed = true
+		for gen := 0; gen < gens; gen++ {
+			shares := map[uint16][]byte{}
+			errs := map[uint16]error{}
+			delays := map[uint16]time.Duration{}
+			for _, u := range ids {
+				delays[u] = time.Duration(rng.Intn(2000)) * time.Microsecond
 			}
-		}
-		p.Case(label+" keygen", true)
-		if failed {
-			cancel()
-			c.Net.Stop()
-			continue
-		}
-		for _, u := range ids {
-			c.Schemes[u].SetStoredData(shares[u])
-		}
-		tpk, err := c.Schemes[ids[0]].ThresholdPK()
-		if err != nil {
-			p.Violate("orchestrated-keygen-failed/"+mode, label+": ThresholdPK: "+err.Error(), nil)
-		}
-		for di, d := range c19digests(rng)[:4] {
-			signers := pickSigners(rng, ids, cs.t+1)
-			topic := fmt.Sprintf("c19-orch-%d-%d", i, di)
-			if cs.silent {
-				c.SetPick(topic, signers)
-			}
-			sigs := map[uint16][]byte{}
-			for _, u := range signers {
+			for _, u := range ids {
 				u := u
 				wg.Add(1)
 				go func() {
 					defer wg.Done()
-					out, err := c.Schemes[u].Sign(ctx, d, topic)
+					time.Sleep(delays[u])
+					out, err := c.Schemes[u].KeyGen(ctx, cs.n, cs.t)
 					mu.Lock()
-					sigs[u], errs[u] = out, err
+					shares[u], errs[u] = out, err
 					mu.Unlock()
 				}()
 			}
 			wg.Wait()
-			for _, u := range signers {
-				switch {
-				case errs[u] != nil:
-					p.Violate("orchestrated-sign-failed/"+mode, fmt.Sprintf("%s: Sign of digest#%d at node %d (signers %v): %v", label, di, u, signers, errs[u]), nil)
-				case !verifySig("eddsa", tpk, d, sigs[u]):
-					p.Violate("orchestrated-signature-does-not-verify/"+mode, fmt.Sprintf("%s: node %d obtained a signature that crypto/ed25519 rejects for the requested digest#%d (%x...)", label, u, di, d[:4]), nil)
-				default:
-					p.Count("orchestrated_signatures_verified", 1)
+			failed := false
+			for _, u := range ids {
+				if errs[u] != nil {
+					p.Violate("orchestrated-keygen-failed/"+mode, fmt.Sprintf("%s: node %d: %v", label, u, errs[u]), nil)
+					failed = true
 				}
 			}
-			p.Case(fmt.Sprintf("%s digest#%d signers=%v", label, di, signers), true)
+			p.Case(fmt.Sprintf("%s keygen #%d", label, gen+1), true)
+			if failed {
+				break
+			}
+			for _, u := range ids {
+				c.Schemes[u].SetStoredData(shares[u])
+			}
+			// every node is asked for the key it reports (through the scheme object, as an application does)
+			var tpk []byte
+			for _, u := range ids {
+				k, err := c.Schemes[u].ThresholdPK()
+				if err != nil {
+					p.Violate("orchestrated-keygen-failed/"+mode, fmt.Sprintf("%s: ThresholdPK at node %d after key generation #%d: %v", label, u, gen+1, err), nil)
+					continue
+				}
+				if tpk == nil {
+					tpk = k
+				} else if !bytes.Equal(tpk, k) {
+					p.Violate("orchestrated-public-material-differs/"+mode, fmt.Sprintf("%s: after key generation #%d node %d reports another threshold public key than node %d", label, gen+1, u, ids[0]), nil)
+				}
+			}
+			if gen > 0 && bytes.Equal(tpk, prevTPK) {
+				p.Violate("orchestrated-public-material-stale/"+mode, fmt.Sprintf("%s: after a second key generation on the same scheme objects the nodes still report the threshold public key of the first", label), nil)
+			}
+			prevTPK = tpk
+			if gen > 0 {
+				p.Count("second_key_generations_on_the_same_scheme_objects", 1)
+			}
+			for di, d := range c19digests(rng)[:4-2*gen] {
+				signers := pickSigners(rng, ids, cs.t+1)
+				topic := fmt.Sprintf("c19-orch-%d-%d-%d", i, gen, di)
+				if cs.silent {
+					c.SetPick(topic, signers)
+				}
+				sigs := map[uint16][]byte{}
+				for _, u := range signers {
+					u := u
+					wg.Add(1)
+					go func() {
+						defer wg.Done()
+						out, err := c.Schemes[u].Sign(ctx, d, topic)
+						mu.Lock()
+						sigs[u], errs[u] = out, err
+						mu.Unlock()
+					}()
+				}
+				wg.Wait()
+				for _, u := range signers {
+					switch {
+					case errs[u] != nil:
+						p.Violate("orchestrated-sign-failed/"+mode, fmt.Sprintf("%s: Sign of digest#%d at node %d (signers %v): %v", label, di, u, signers, errs[u]), nil)
+					case !verifySig("eddsa", tpk, d, sigs[u]):
+						p.Violate("orchestrated-signature-does-not-verify/"+mode, fmt.Sprintf("%s: node %d obtained a signature that crypto/ed25519 rejects for the requested digest#%d (%x...)", label, u, di, d[:4]), nil)
+					default:
+						p.Count("orchestrated_signatures_verified", 1)
+					}
+				}
+				p.Case(fmt.Sprintf("%s generation %d digest#%d signers=%v", label, gen+1, di, signers), true)
+			}
 		}
 		cancel()
 		c.Net.Stop()
